@@ -23,7 +23,7 @@ demo_cmds = []
 for shname in ("run.sh", "run_demo.sh"):
     if os.path.exists(os.path.join(src, shname)):
         demos = []
-        demo_cmds.append((shname, f"sh {src}/{shname} 2>&1 | tail -25"))
+        demo_cmds.append((shname, f"sh {src}/{shname} > /tmp/seed_demo.out 2>&1; echo SEEDRC=$?; tail -25 /tmp/seed_demo.out"))
 for d in demos:
     stem = os.path.splitext(os.path.basename(d))[0]
     os.makedirs(os.path.join(wt, "cglue", "tests"), exist_ok=True)
@@ -32,14 +32,14 @@ for d in demos:
 fails_with = True
 for stem, c in demo_cmds:
     rc, out = sh(c)
-    bad = ("test result: FAILED" in out) or ("error: test failed" in out) or ("signal" in out)
+    bad = ("test result: FAILED" in out) or ("error: test failed" in out) or ("signal" in out) or (re.search(r"SEEDRC=[1-9]", out) is not None)
     meta["ran"][f"demo {stem} with change"] = "FAILS" if bad else "passes (!): " + out[-300:]
     fails_with &= bad
 sh("git checkout -- .")
 passes_without = True
 for stem, c in demo_cmds:
     rc, out = sh(c)
-    good = "test result: ok" in out and "FAILED" not in out
+    good = ("test result: ok" in out and "FAILED" not in out) or ("SEEDRC=0" in out)
     meta["ran"][f"demo {stem} without change"] = "passes" if good else "does not pass (!): " + out[-300:]
     passes_without &= good
 clean()
